@@ -88,8 +88,7 @@ def run(root, pid, tier, seed):
         if r[0] == "compile":
             _, ci, err, spans = r
             hit = False
-            for m in re.finditer(r"--> [^\n]*cd_%d\.rs:(\d+):" % ci, err):
-                ln = int(m.group(1))
+            for ln, _head, _blk in E.error_locations(err, r"cd_%d\.rs" % ci):
                 for (a, b, key) in spans:
                     if a <= ln <= b:
                         bad.setdefault(key, "compile-time comparison failed (const evaluation error)")
